@@ -467,7 +467,7 @@ make_bits_image (const bits_geom_t *g, arena_buf_t **buf_out, uint8_t **lowest_o
 static void
 decode_stops (const int64_t *a, int n, int at, pixman_gradient_stop_t *stops, int *n_stops)
 {
-    int cnt = (int)sim_clamp (A (at), 1, 6), i;
+    int cnt = (int)sim_clamp (A (at), 1, 16), i;
     int64_t prev = 0;
     for (i = 0; i < cnt; i++)
     {
@@ -489,7 +489,7 @@ decode_stops (const int64_t *a, int n, int at, pixman_gradient_stop_t *stops, in
 static pixman_image_t *
 make_nonbits_image (int kind, const int64_t *a, int n)
 {
-    pixman_gradient_stop_t stops[8];
+    pixman_gradient_stop_t stops[16];
     int ns;
     switch (kind)
     {
